@@ -693,8 +693,11 @@ pub fn parent_main(check: &'static dyn Check, tier: Tier, seed: u64) -> i32 {
     }));
     let phases = check.phases(tier);
     let mut handles = vec![];
+    // a crashing or hanging tree fails the check anyway: stop respawning after a few deaths
+    let deaths = Arc::new(std::sync::atomic::AtomicU64::new(0));
     for wid in 0..n {
         let agg = agg.clone();
+        let deaths = deaths.clone();
         let dir = dir.clone();
         let phases = phases.clone();
         handles.push(std::thread::spawn(move || {
@@ -808,6 +811,10 @@ pub fn parent_main(check: &'static dyn Check, tier: Tier, seed: u64) -> i32 {
                 }
                 drop(g);
                 restarts += 1;
+                if deaths.fetch_add(1, Ordering::Relaxed) + 1 >= 24 {
+                    agg.lock().unwrap().infra.push(format!("worker {wid}: stopped after 24 worker deaths in this run"));
+                    break;
+                }
                 if restarts > 200 {
                     agg.lock().unwrap().infra.push(format!("worker {wid}: too many restarts"));
                     break;
